@@ -388,7 +388,9 @@ func TestGen(t *testing.T) {
 		"E2E: fake discovery server, a SotW or delta client synchronised on CDS+EDS, cut after k responses (or mid-push), services/endpoints " +
 		"added and removed while disconnected, reconnect with the retained maps (plus names that never existed), exchange run to " +
 		"quiescence behind an LDS barrier, compared with a fresh client. Order: statement order of initConnection and Push read " +
-		"from the source. A Sess case is non-trivial when a first request carries a retained nonce or initial versions."
+		"from the source. Enq: every schedule of {next setup step, commit, AdsPushAll} up to length 6 (8 thorough) plus random longer " +
+		"ones replayed on the real addCon / MarkInitialized / globalPushContext / AdsPushAll / PushQueue, queue entry of the connecting " +
+		"proxy drained and compared. A Sess case is non-trivial when a first request carries a retained nonce or initial versions."
 	g := &gen{c: c, next: 1}
 	root := vlib.NewRand(vlib.Seed() ^ 0xc05)
 
@@ -401,6 +403,8 @@ func TestGen(t *testing.T) {
 	runE2E(t, g, root.Sub())
 	g.next = 2000000
 	runRace(t, g)
+	g.next = 3000000
+	g.enq(root.Sub())
 
 	if err := c.Flush(); err != nil {
 		t.Fatal(err)
